@@ -69,6 +69,19 @@ class PW:
     def S(self, name):
         return self.it.enum_const(self.cs, name)
 
+    def interleave(self):
+        """other calls / threads use the same breaker while this call's operation runs: its state is arbitrary afterwards,
+        except that a probe slot taken by THIS call stays taken (C07: nothing but this call's own record may release it)"""
+        if self.breaker is None or getattr(self, "twin", False):
+            return
+        it = self.it
+        self.interleaved = True
+        if getattr(self, "took_probe", False):
+            return
+        self.bstate = it.fresh_enum(self.cs, "bstate_later")
+        self.probe = z3.Bool(fresh_name("probe_later"))
+        it.path.assume(z3.Implies(self.probe, self.bstate.t == self.S("HALF_OPEN")))
+
 
 def PWof(it) -> PW:
     return it.path.ghost["PW"]
@@ -115,6 +128,7 @@ def install(it):
             p = it_.path
             klass = args[1] if len(args) > 1 else None
             w.records.append((kind, klass))
+            w.before_record = (w.bstate, w.probe)
             half = w.bstate.t == w.S("HALF_OPEN")
             if kind == "cancel":
                 if p.branch(half):
@@ -161,6 +175,7 @@ def install(it):
             w = PWof(it_)
             w.retry_calls += 1
             w.retry_args = (args, kwargs)
+            w.interleave()
             c = it_.path.choose(4, "retry.call")
             if c == 0:
                 v = fref("value")
@@ -192,6 +207,7 @@ def install(it):
             w = PWof(it_)
             w.retry_calls += 1
             w.retry_args = (args, kwargs)
+            w.interleave()
             if it_.path.choose(2, "retry.execute") == 1:
                 e = any_exc(it_, "escaped")
                 w.final = ("exception", e)
@@ -200,7 +216,8 @@ def install(it):
             ok = fbool("ok")
             o = Obj(ro, {"ok": ok, "value": fref("value"), "stop_reason": fopt("stop_reason", it_.fresh_enum(w.sr, "stop_reason")),
                          "attempts": fint("attempts"), "last_class": fopt("last_class", it_.fresh_enum(w.ec, "last_class")),
-                         "last_exception": None, "last_result": None, "cause": None, "elapsed_s": freal("elapsed"),
+                         "last_exception": fopt("last_exception", any_exc(it_, "final")), "last_result": None, "cause": None,
+                         "elapsed_s": freal("elapsed"),
                          "next_sleep_s": None, "timeline": None}, frozen=True, ident=z3.Int(fresh_name("outcome_id")))
             # C11 on the runner: ok => no stop reason
             it_.path.assume(z3.Implies(ok.t, o.fields["stop_reason"].none))
@@ -217,6 +234,7 @@ def install(it):
     def m_func(it_, fn, args, kwargs, node):
         w = PWof(it_)
         w.func_calls += 1
+        w.interleave()
 
         def outcome(node_=None):
             if it_.path.choose(2, "func") == 0:
@@ -323,6 +341,15 @@ def t_entry(it, flavour, kind, with_retry):
                  else True, prop="C08")
         p.oblige(f"{key}/C09/exactly-one-record-per-admitted-call", n == 1, prop="C09", detail=[k for k, _ in recs])
         p.oblige(f"{key}/C07/breaker-asked-once", w.allow_calls == 1, prop="C07")
+        if n >= 1 and getattr(w, "interleaved", False) and not getattr(w, "took_probe", False) and hasattr(w, "before_record"):
+            # schedules: this call was admitted without taking the probe slot; whatever happened to the breaker while its
+            # operation ran, its own report must not be taken for the probe's
+            st_b, pr_b = w.before_record
+            half_b = st_b.t == w.S("HALF_OPEN")
+            p.oblige(f"{key}/C07/schedules/report-of-a-non-probe-call-does-not-release-the-probe-slot",
+                     z3.Implies(z3.And(half_b, pr_b), w.probe), prop="C07", detail={"record": recs[0][0]})
+            p.oblige(f"{key}/C07/schedules/report-of-a-non-probe-call-does-not-close-or-reopen-a-half-open-circuit",
+                     z3.Implies(z3.And(half_b, pr_b), w.bstate.t == w.S("HALF_OPEN")), prop="C07", detail={"record": recs[0][0]})
         if n != 1:
             return
         rk, rclass = recs[0]
@@ -352,8 +379,12 @@ def t_entry(it, flavour, kind, with_retry):
                     okd = p.known.get(z3.simplify(ok).get_id())
                     p.oblige(f"{key}/C09/ok=>success", z3.Implies(ok, rk == "success"), prop="C09")
                     p.oblige(f"{key}/C09/aborted=>cancel", z3.Implies(z3.And(z3.Not(ok), aborted), rk == "cancel"), prop="C09")
+                    le_none, le = ops.opt_parts(f["last_exception"])
+                    nested_open = z3.And(z3.Not(le_none), lat.isinstance_cond(le.cls_t, COE)) if le is not None else z3.BoolVal(False)
+                    p.oblige(f"{key}/C09/nested-breaker-rejection-is-not-counted-as-failure",
+                             z3.Implies(z3.And(z3.Not(ok), z3.Not(aborted), nested_open), rk == "cancel"), prop="C09")
                     p.oblige(f"{key}/C09/stopped=>failure-with-final-class",
-                             z3.Implies(z3.And(z3.Not(ok), z3.Not(aborted)),
+                             z3.Implies(z3.And(z3.Not(ok), z3.Not(aborted), z3.Not(nested_open)),
                                         z3.And(rk == "failure", rclass.t == cls_or_unknown(f["last_class"]) if rclass is not None else False)),
                              prop="C09")
                 else:
